@@ -205,6 +205,60 @@ def nested_av(n, bo="le"):
     return out + b"\x01y\x00\x07"
 
 
+def chain_sigs(levels):
+    """levels: string over v (variant), a (array), s (struct), d (dict a{y..}), outermost first, around one byte.
+    Returns the signature of the value below each level (index i: what level i holds) and of the whole value"""
+    inner = []
+    sig = "y"
+    for k in reversed(levels):
+        inner.append(sig)
+        sig = {"v": "v", "a": "a" + sig, "s": "(" + sig + ")", "d": "a{y" + sig + "}"}[k]
+    inner.reverse()
+    return inner, sig
+
+
+def chain_bytes(levels, bo="le", off=0):
+    """the encoding, by the wire format's rules (written here, independent of the extracted encoder: that one is compared through
+    the model lines), of single-child containers in each other around the byte 7, starting at a position = off (mod 8).
+    Every container ends where the whole value ends, so a length is (end - start of its elements)."""
+    inner, _ = chain_sigs(levels)
+    out = bytearray()
+    fix = []
+
+    def align(a):
+        out.extend(b"\x00" * ((-(off + len(out))) % a))
+
+    def align_of(sig):
+        return {"y": 1, "v": 1, "a": 4, "(": 8}[sig[0]]
+    for k, sg in zip(levels, inner):
+        if k == "v":
+            b = sg.encode()
+            out.extend(bytes([len(b)]) + b + b"\x00")
+        elif k == "s":
+            align(8)
+        else:
+            align(4)
+            at = len(out)
+            out.extend(b"\x00\x00\x00\x00")
+            if k == "d":
+                align(8)
+                fix.append((at, len(out)))
+                out.append(3)                    # the key
+            else:
+                align(align_of(sg))
+                fix.append((at, len(out)))
+        align(align_of(sg))                  # the child (a dict's value comes after the key byte)
+    out.append(7)
+    for at, start in fix:
+        out[at:at + 4] = u32(bo, len(out) - start)
+    return bytes(out)
+
+
+def chain_levels(pattern, n):
+    """n levels cycling through the pattern (which holds a variant often enough for every signature to stay within 32/32)"""
+    return "".join(pattern[i % len(pattern)] for i in range(n))
+
+
 def u32(bo, n):
     return struct.pack("<I" if bo == "le" else ">I", n)
 
@@ -503,6 +557,45 @@ def gen_nesting(g):
         cases.append(Case("bomb:shape", "VR le %d 0 v %s" % (phase(), h), len(enc), model="VR le 0 v %s" % h, expect=exp, note=note))
         cases.append(Case("bomb:shape", "UP le %d 0 0 v %s" % (phase(), h), len(enc), model="UP le 0 0 v %s" % h, expect=exp, note=note))
         cases += body_cases("bomb:shape", "Variant", "v", "le", 0, enc, phase(), ["get", "param", "validate", "all"], expect=exp, expect_get=exp)
+    cases += gen_chains(g)
+    return cases
+
+
+# level patterns (v variant, d dict a{y..}, a array, s struct), cycled: every kind of container next to every other, dict levels
+# alone with variants, dicts of arrays, dicts in structs, runs of dicts / arrays / structs between two variants
+CHAIN_PATTERNS = ["vd", "dv", "vda", "vsd", "vdd", "vads", "v" + "d" * 15, "v" + "a" * 7 + "d" * 7 + "s" * 7, "vdvs", "va", "vs"]
+CHAIN_DEPTHS = [9, 62, 63, 64, 65, 66, 81, 127, 128, 1000]
+
+
+def gen_chains(g):
+    """single-child container chains of every level kind (dict levels included) around the 64 level limit and far beyond, through
+    validate_raw, the Param decoder, the typed Variant / params::Variant, the body parser and validate / unmarshall_all"""
+    cases = []
+    phase = g.phase
+    for pi, pat in enumerate(CHAIN_PATTERNS):
+        for di, n in enumerate(CHAIN_DEPTHS + ([5000] if g.thorough else [])):
+            lv = chain_levels(pat, n)
+            bo = "le" if (pi + di) % 2 == 0 else "be"
+            _, sig = chain_sigs(lv)
+            data = chain_bytes(lv, bo)
+            h = hx(data)
+            exp = "ok" if n <= 64 else "err"
+            note = "%d levels of pattern %s (%d dict levels)" % (n, pat if len(pat) < 12 else pat[:1] + "+runs", lv.count("d"))
+            small = n <= 1000
+            cases.append(Case("bomb:chain", "VR %s %d 0 %s %s" % (bo, phase(), sig, h), len(data), model="VR %s 0 %s %s" % (bo, sig, h) if small else None, expect=exp, note=note))
+            cases.append(Case("bomb:chain", "UP %s %d 0 0 %s %s" % (bo, phase(), sig, h), len(data), model="UP %s 0 0 %s %s" % (bo, sig, h) if small else None, expect=exp, note=note))
+            if sig == "v":
+                for ty in ("Variant", "ParamVariant"):
+                    cases.append(Case("bomb:chain", "UT %s %s %d 0 0 %s" % (ty, bo, phase(), h), len(data), expect=exp, note=note))
+                for ty in ("MS1", "MV1", "DE1", "Vec<Variant>", "HashMap<String,Variant>"):
+                    cases.append(Case("bomb:chain", "UT %s %s %d 0 0 %s" % (ty, bo, phase(), h), len(data), note=note))
+            modes = ["get", "param", "validate", "all"] if sig == "v" else ["param", "validate", "all"]
+            for c in body_cases("bomb:chain", "Variant", sig, bo, 0, data, phase(), modes, expect=exp, expect_get=exp):
+                c.note = note
+                cases.append(c)
+            if sig == "v":
+                cases.append(Case("bomb:chain", "HD %d %s" % (phase(), hx(header_bytes(bo, "v", data))), len(data) + 80, expect="ok",
+                                  note=note + " as message body: header decoding does not look into the body"))
     return cases
 
 
@@ -581,6 +674,15 @@ def gen_header(g):
             m = header_bytes(bo, "", b"", fields=[(1, "o", b"/p"), (3, "s", b"M"), (77, "v", val)])
             cases.append(Case("header:bomb", "HD %d %s" % (phase(), hx(m)), len(m), expect="err" if n > 61 else None,
                               note="unknown header field holding %d nested variants (already 3 levels deep)" % n))
+        # the same with every kind of level below the field's own variant (which is the chain's first level): the header's array
+        # and struct are 2 levels more
+        for pat in [p for p in CHAIN_PATTERNS if p[0] == "v"]:
+            for n in (9, 60, 61, 62, 63, 64, 79, 125, 1000):
+                lv = chain_levels(pat, n)
+                m = header_bytes(bo, "", b"", fields=[(1, "o", b"/p"), (3, "s", b"M"), (77, "v", chain_bytes(lv, bo, off=1))])
+                cases.append(Case("header:bomb", "HD %d %s" % (phase(), hx(m)), len(m), expect="ok" if n + 2 <= 64 else "err",
+                                  note="unknown header field whose value has %d levels of pattern %s (%d dict levels), 2 more around it" % (
+                                      n, pat if len(pat) < 12 else pat[:1] + "+runs", lv.count("d"))))
     # the body signature a receiver's parser works on is whatever the header decoder accepted: SIGNATURE fields that are invalid,
     # truncated, as long as the length byte allows, nested to and beyond the limits - the whole parser surface runs on every message
     # the library hands out, through the decoding functions (HD) and through get_next_message on a real connection (RXM)
